@@ -295,6 +295,7 @@ impl Gen {
                         1 => format!("T~{}.X", k),
                         2 => format!("U_{}", k),
                         3 => format!("U\u{7f}{}", k),
+                        4 if self.rng.chance(1, 2) => format!("M\u{dc}NCHEN{}.TXT", k),
                         4 => format!("\u{c9}{}.Q", k),
                         _ => format!("\u{e9}{}.Q", k),
                     };
